@@ -819,6 +819,22 @@ func genOmniFresh(r *rand.Rand, i int) J {
 	if r.Intn(8) == 0 {
 		c["strict"] = true
 	}
+	// now and then the whole program under custom delimiters (some positions left empty = default)
+	if r.Intn(6) == 0 {
+		d := pick(r, [][]string{{"<<", ">>", "<?", "?>"}, {"[[", "]]", "", ""}, {"", "", "<%", "%>"}, {"(((", ")))", "((%", "%))"}}) // (mutually non-prefixing, as C19 presupposes)
+		sp := jobj(c["spell"])
+		if sp == nil {
+			sp = J{}
+		}
+		sp2 := J{}
+		for k, v := range sp {
+			sp2[k] = v
+		}
+		sp2["delims"] = []any{bs(d[0]), bs(d[1]), bs(d[2]), bs(d[3])}
+		if _, err := newPrinter(spellFromJSON(sp2)).Template(prog); err == nil && !g.hasInc {
+			c["spell"] = sp2
+		}
+	}
 	return c
 }
 
